@@ -84,6 +84,9 @@ pub struct Obs {
     pub end: End,
     pub trace: RuntimeTrace,
     pub executed: Option<Vec<u32>>,
+    /// source spans of the executed statements (when recorded)
+    pub executed_spans: Vec<(usize, usize)>,
+    pub removable_functions: usize,
     pub plan_some: bool,
     pub removable_stmts: Vec<u32>,
 }
@@ -226,6 +229,8 @@ pub fn run_pipeline(ctx: &Ctx, src: &str, mode: Mode, opts: RunOpts) -> Obs {
         end: End::Normal,
         trace: RuntimeTrace::default(),
         executed: None,
+        executed_spans: vec![],
+        removable_functions: 0,
         plan_some: false,
         removable_stmts: vec![],
     };
@@ -247,6 +252,7 @@ pub fn run_pipeline(ctx: &Ctx, src: &str, mode: Mode, opts: RunOpts) -> Obs {
         obs.plan_some = resolver.optimization_plan.is_some();
         if let Some(p) = resolver.optimization_plan.as_ref() {
             obs.removable_stmts = p.removable_stmts.iter().map(|s| s.0).collect();
+            obs.removable_functions = p.removable_function_defs.len();
         }
         let mut rt =
             Runtime::new_with_host_policy(arena, if mode.frame { Some(frame) } else { None }, policy);
@@ -259,6 +265,16 @@ pub fn run_pipeline(ctx: &Ctx, src: &str, mode: Mode, opts: RunOpts) -> Obs {
         }));
         let (trace, executed) = verif_hooks::trace_end();
         obs.trace = trace;
+        if let Some(ids) = &executed {
+            let mut ids = ids.clone();
+            ids.sort_unstable();
+            ids.dedup();
+            for id in ids {
+                if let Some(e) = resolver.facts.stmt_effects.get(id as usize) {
+                    obs.executed_spans.push(stmt_span(e.stmt));
+                }
+            }
+        }
         obs.executed = executed;
         // output is valid up to the panic point as well
         let out_ok = catch_unwind(AssertUnwindSafe(|| {
@@ -285,6 +301,24 @@ pub fn run_pipeline(ctx: &Ctx, src: &str, mode: Mode, opts: RunOpts) -> Obs {
         }
     }
     obs
+}
+
+fn stmt_span(s: &naijascript::syntax::parser::Stmt<'_>) -> (usize, usize) {
+    use naijascript::syntax::parser::Stmt;
+    let sp = match s {
+        Stmt::FunctionDef { span, .. }
+        | Stmt::Assign { span, .. }
+        | Stmt::AssignExisting { span, .. }
+        | Stmt::AssignIndex { span, .. }
+        | Stmt::If { span, .. }
+        | Stmt::Loop { span, .. }
+        | Stmt::Block { span, .. }
+        | Stmt::Return { span, .. }
+        | Stmt::Break { span }
+        | Stmt::Continue { span }
+        | Stmt::Expression { span, .. } => span,
+    };
+    (sp.start, sp.end)
 }
 
 thread_local! {
